@@ -254,13 +254,25 @@ def _check_main(ctx, rep: Report):
                 base = ast.unparse(node.value)
                 if base in ("self",) and fi.cls is not None and fi.cls.name == "Attr":
                     continue
+                ann = {a_.arg: ast.unparse(a_.annotation) for a_ in fi.node.args.args + fi.node.args.kwonlyargs if a_.annotation is not None}
+                if "Field" in ann.get(base, "") or "Parameter" in ann.get(base, ""):
+                    continue       # a dataclasses.Field / inspect.Parameter, not an Attr
                 if base.startswith("inspect.") or base.endswith("Parameter") or base in ("p", "impl_param", "method_param", "value") and "Attr" not in short and "build_attr_spec" not in short:
                     if base in ("p", "impl_param", "method_param"):
                         continue   # inspect.Parameter.default
                 reads.append((short, base, node.attr, f"{fi.module.relpath}:{node.lineno}"))
     seen_wl = set()
+    from .base import static_callees
+    callers = {}
+    for f_ in ctx.p.iter_functions():
+        if not f_.is_lambda:
+            for node_, g_ in static_callees(ctx.p, f_):
+                callers.setdefault(g_.qualname.split(":")[-1].split("#")[0], []).append(f_.qualname.split(":")[-1].split("#")[0])
     for short, base, attr, site in reads:
         ok = any(short == w or short.startswith(w + ".") for w in RD_WHITELIST)
+        if not ok and short.split(".")[-1].startswith("_") and not short.split(".")[-1].startswith("__"):
+            cs = callers.get(short, [])        # private helper extracted from a whitelisted site
+            ok = bool(cs) and all(any(c_ == w or c_.startswith(w + ".") for w in RD_WHITELIST) for c_ in cs)
         if ok:
             seen_wl.add(short)
         rep.oblige("C08.RD", f"{short}:{base}.{attr}", ok, "" if ok else "not whitelisted")
